@@ -300,7 +300,7 @@ int main(int argc, char **argv) {
     E.eval = eval_case;
     E.to_text = to_text;
     E.from_text = from_text;
-    E.default_cases = [](const rt::Args &a) { return a.tier == "thorough" ? 200000L : 8000L; };
+    E.default_cases = [](const rt::Args &a) { return a.tier == "thorough" ? 300000L : 30000L; };
     E.exhaustive = exhaustive;
     return rcm::run(argc, argv, E);
 }
